@@ -42,6 +42,7 @@ func c17Centre(chain []uint64, limbs []uint64) (x *big.Int, ok bool) {
 func c17Probes(c *Ctx) {
 	safe := func(name string, f func(*Ctx)) { c17Safe(c, name, f) }
 	safe("views", c17ProbeViews)
+	c17ProbeConsumers(c)
 	safe("sparse-signs", c17ProbeSparseSigns)
 	safe("determinism", c17ProbeDeterminism)
 	safe("uniform", c17ProbeUniform)
@@ -280,6 +281,11 @@ func c17ProbeGauss(c *Ctx) {
 	// bound larger than a modulus: the limb arithmetic (qi - coeffInt) wraps
 	for i := 0; i < c.Scale(6, 60); i++ {
 		cfgs = append(cfgs, cfg{1048576, 6291456, []uint64{257, 65537, 1073741953}, "bound>q"})
+	}
+	// bound between two moduli of the chain, the larger modulus FIRST: only the later limbs need the reduction
+	for i := 0; i < c.Scale(6, 60); i++ {
+		ch := [][]uint64{{1073741953, 65537, 257}, {35184372088321, 257}, {1073741953, 1048193, 65537}}[i%3]
+		cfgs = append(cfgs, cfg{1048576, 6291456, ch, "bound>q"})
 	}
 	// big-number path
 	for i := 0; i < c.Scale(10, 100); i++ {
